@@ -89,10 +89,20 @@ CLAIMS.update({
         "then), on the miss path at the linearization instant of the inner load_full - hence never an unstored value and at least as new as every store completed before the call; "
         "successive loads of one cache are monotone (cache_loads_monotone); step theorems: a hit touches nothing, a miss performs exactly one load_full and releases the previously "
         "cached value exactly once. " + TIE + " The oracle checks every returned value against the write order on 1-3-preemption sweeps, the grid of the cache A-B-A shape (g06) and "
-        "generated cache programs.",
+        "generated cache programs. WEAK MEMORY: the Relaxed revalidating read may return an older value of the storage, and its result is trusted (a stale value equal to the cached pointer "
+        "makes the cache keep its old value), so the statement above is false there (C16_stale_not_linearizable is a concrete run). StaleC.step_staleC lets the schedule supply that value; "
+        "StaleCView.v tracks the modification order of every container, per-thread views (program order + release/acquire through the storages) and the index a cache holds; "
+        "C16_cache_fresh_stale (within RunOKSC, all schedules): the value a completed Cache::new/Cache::load leaves in the cache is write number j of its container with j not older than "
+        "anything that happens-before the call and, for a load, not older than what the cache held before - never an unstored value; C16_own_write_seen and C16_view_handover show what "
+        "the views contain (own writes; anything handed over through ANY container); C16_no_fault_stale / C16_no_fault_stale3: no use after free in such runs (also with all five "
+        "weakened loads). The correspondence runs the real crate with the hook shim answering the revalidating read with older values the thread may still read (harness views with "
+        "release/acquire transfer through every atomic location and join; policy 'stale3', scenario s25); the model driver re-checks every supplied value against the model's views "
+        "(staleC_okb) and the C16 oracle judges stale loads against happens-before instead of real time.",
    note=NOTE + "Fault freedom with Cache commands is proved as well (ASModel/Cch*.v: the master invariant re-proved with the cache's reference counted in the frames of a running cache "
         "load; C16_no_fault, C16_cache_linearizable_total within RunOKC = RunOK with Cache commands allowed plus 'no other thread touches a cache handle while its load runs'; a checked "
-        "run with a hit and a miss inhabits the scope). The Relaxed comparison read is modelled sequentially consistent. MapCache is not modelled.",
+        "run with a hit and a miss inhabits the scope). The freshness theorem assumes that cache handles are not moved between handle indices (NoCacheMove) and that the container is never consumed (never_consumed); "
+        "its views see happens-before through program order and the storages only (a lower bound of the real relation: more staleness is allowed than a real execution could show). "
+        "The freshness theorem is proved for stale revalidation alone (step_staleC), not yet combined with the other four weakened loads (fault freedom is). MapCache is not modelled.",
    technique="Rocq/Coq proof (instrumented runs, inductive invariant over all schedules) + trace correspondence with a history oracle"),
  "C18": dict(engine="ASModel",
    text="Coq theorems over ASModel with a panicking rcu closure (panic on a chosen attempt, allocation on earlier ones): the unwind is exactly "
